@@ -370,15 +370,16 @@ type jsonWrapper struct {
 }
 
 type jsonDump struct {
-	Repo       string        `json:"repo"`
-	Wrappers   []jsonWrapper `json:"wrappers"`
-	Consts     Consts        `json:"constants"`
-	Benign     []string      `json:"benign_applied"`
-	Notes      []string      `json:"notes"`
-	Excluded   []string      `json:"excluded_test_doubles"`
-	Promoted   []string      `json:"promoted_unwrapped_methods"`
-	Functions  int           `json:"functions_analysed"`
-	Exceptions [][2]string   `json:"exceptions"`
+	Repo           string        `json:"repo"`
+	Wrappers       []jsonWrapper `json:"wrappers"`
+	Consts         Consts        `json:"constants"`
+	Benign         []string      `json:"benign_applied"`
+	Notes          []string      `json:"notes"`
+	Excluded       []string      `json:"excluded_test_doubles"`
+	Promoted       []string      `json:"promoted_unwrapped_methods"`
+	Functions      int           `json:"functions_analysed"`
+	Exceptions     [][2]string   `json:"exceptions"`
+	RaceExceptions [][3]string   `json:"race_exceptions"`
 }
 
 func coqStr(s string) string { return "\"" + strings.ReplaceAll(s, "\"", "\"\"") + "\"" }
@@ -525,6 +526,33 @@ func emit(out, jsonOut, repo string, table []*Wrapper, consts Consts, benign []*
 		}
 		b.WriteString("].\n\n")
 	}
+	// plain writes outside write sections: each one is a data-race candidate; C12 accepts a
+	// location only if Sync.v recognises the signature of a recorded known finding
+	b.WriteString("(* plain writes found in read-locked or lock-free sections: (location, wrapper, finding label) *)\nDefinition race_exceptions : list (N * string * string) := [")
+	nre := 0
+	for _, wr := range table {
+		for _, s := range wr.Sections {
+			if s.Mode == "W" {
+				continue
+			}
+			var ls []string
+			for k := range s.Acc {
+				if k.Kind == 'w' {
+					ls = append(ls, k.Loc)
+				}
+			}
+			sort.Strings(ls)
+			for _, l := range ls {
+				if nre > 0 {
+					b.WriteString(";")
+				}
+				nre++
+				fmt.Fprintf(&b, "\n  (%d, %s, %s)", id[l], coqStr(wr.Name), coqStr("F32"))
+				jd.RaceExceptions = append(jd.RaceExceptions, [3]string{l, wr.Name, s.Acc[accOut{'w', l}]})
+			}
+		}
+	}
+	b.WriteString("].\n\n")
 	pairs("exceptions", "wrappers that are not one write section / one write-free read section, labelled with the known finding the shape belongs to (Sync.v re-checks every label against the finding's signature)", exceptions)
 	pairs("irregular_reasons", "why a wrapper was emitted as Irregular", irregulars)
 	b.WriteString("(* shape of the auto-load protocol as found in Start/StopAutoLoadPolicy *)\n")
